@@ -776,6 +776,20 @@ func (w *World) oracleReports() {
 			}
 		}
 	}
+	if w.sink2 != nil {
+		// a failure report has the null sender: when it cannot be delivered
+		// itself, nothing is generated for it
+		for _, tx := range w.sink2.Records() {
+			s.Violate("C18/report-about-report", "a failure report that failed in the second queue caused another report: bounce2 tx%d from=%q rcpts=%v", tx.N, tx.From, tx.Rcpts)
+		}
+		n := 0
+		for _, tx := range w.chainTgt.Records() {
+			if tx.Started {
+				n++
+			}
+		}
+		s.StatN("chain_report_attempts", n)
+	}
 	if left := w.fs.Names(spool); len(left) > 0 && len(s.Violations()) == 0 {
 		s.Violate("C18/spool-leftover", "spool not empty at quiescence: %v", left)
 	}
